@@ -247,18 +247,24 @@ CHECKS = {
         technique="TLA+ law checking (TLC) over the exhaustively recorded relation table",
         ref="DESIGN.md section 4 C12"),
     "C13": dict(
-        engine="Ty/TyRelLaws",
+        engine="Ty/TyRelLaws/NominalProg",
         category="model_checking",
-        text="Same recorded table as C12; TLC checks the nominal-typing laws of TyRelLaws.tla: a "
-             "distinct, enum-variant or named-struct source is never implicitly accepted by a "
-             "different nominal type nor by its own underlying type (except variant -> own enum), "
-             "and casts between a distinct and its underlying type are accepted in both "
-             "directions. The universe has two enums with identical payloads, structurally "
-             "identical named structs, two distincts of one type and a distinct of a distinct.",
-        note="Relation level only (acceptance of programs placing such values in annotations, "
-             "arguments, returns and operands is exercised by the executed-program checks). "
-             "Trusted: TLC, the harness' term -> Ty construction.",
-        technique="TLA+ law checking (TLC) over the exhaustively recorded relation table",
+        text="(1) Relation level: same recorded table as C12; TLC checks the nominal-typing laws of "
+             "TyRelLaws.tla: a distinct, enum-variant or named-struct source is never implicitly "
+             "accepted by a different nominal type nor by its own underlying type (except variant "
+             "-> own enum), and casts between a distinct and its underlying type are accepted in "
+             "both directions. (2) Program level: NominalProg.tla enumerates source kind (two "
+             "distincts of i32, a distinct of a distinct, a named struct, a payload and a "
+             "payload-less variant, the underlying i32, an untyped literal) x expected type (the "
+             "distincts, two structurally identical structs, i32, two enums with the same "
+             "variants) x position (annotation, argument, return, assignment, binary operand), "
+             "checks the nominal law on the rule and emits the verdict; every case is one function "
+             "checked by the real front end. (3) Casts distinct <-> underlying (and distinct of "
+             "distinct) are executed and must keep the bytes.",
+        note="Whether a plain i32 is accepted where a distinct of i32 is expected is not stated by "
+             "the property (the language accepts it): those cases are enumerated but not judged. "
+             "Trusted: TLC, the harness' term -> Ty construction, the renderer in tools/props/c13.py.",
+        technique="TLA+ law checking over the recorded relation table + rule enumeration replayed into the front end",
         ref="DESIGN.md section 4 C13"),
     "C14": dict(
         engine="Mutability",
